@@ -171,6 +171,7 @@ def lean_build(targets):
 # Source tie (DESIGN.md 11.10): functions whose Lean text is regenerated from /repo's source on every run, per property.
 SOURCE_TIE = {
     'C04': ['calc_base_height'],
+    'C06': ['_get_min_sep_for_height'],
     'C17': ['significant_cloud'],
     'C18': ['okta2code', 'height2code', 'perc2okta'],
 }
